@@ -94,6 +94,22 @@ pub struct TaskState {
     pub accesses: Vec<(usize, bool)>,
 }
 
+/// One-shot panic fuse for system bodies (C17, schedule part): every view a body touches ticks it.
+pub static FUSE: std::sync::atomic::AtomicI64 = std::sync::atomic::AtomicI64::new(-1);
+pub static TICKS: AtomicU64 = AtomicU64::new(0);
+pub static FIRED: std::sync::atomic::AtomicBool = std::sync::atomic::AtomicBool::new(false);
+
+#[derive(Debug)]
+pub struct SchedFuse;
+
+fn fuse_tick() {
+    TICKS.fetch_add(1, Ordering::Relaxed);
+    if FUSE.load(Ordering::Relaxed) >= 0 && FUSE.fetch_sub(1, Ordering::SeqCst) == 0 {
+        FIRED.store(true, Ordering::SeqCst);
+        std::panic::panic_any(SchedFuse);
+    }
+}
+
 fn h(x: u64) -> u64 {
     let mut z = x.wrapping_add(0x9E37_79B9_7F4A_7C15);
     z = (z ^ (z >> 30)).wrapping_mul(0xBF58_476D_1CE4_E5B9);
@@ -111,12 +127,14 @@ pub trait Touch {
 }
 impl<'a, X: Val> Touch for &'a X {
     fn touch(self, st: &mut TaskState, salt: u64) {
+        fuse_tick();
         st.accesses.push((self as *const X as usize, false));
         st.acc = st.acc.wrapping_add(h(self.get() ^ salt));
     }
 }
 impl<'a, X: Val> Touch for &'a mut X {
     fn touch(self, st: &mut TaskState, _salt: u64) {
+        fuse_tick();
         st.accesses.push((self as *const X as usize, true));
         let v = upd(self.get(), st.tag);
         self.set(v);
@@ -152,12 +170,14 @@ pub trait TouchPar {
 }
 impl<'a, X: Val> TouchPar for &'a X {
     fn touch_par(self, rec: &ParRec, salt: u64) {
+        fuse_tick();
         rec.accesses.lock().unwrap().push((self as *const X as usize, false));
         rec.acc.fetch_add(h(self.get() ^ salt), Ordering::Relaxed);
     }
 }
 impl<'a, X: Val> TouchPar for &'a mut X {
     fn touch_par(self, rec: &ParRec, _salt: u64) {
+        fuse_tick();
         rec.accesses.lock().unwrap().push((self as *const X as usize, true));
         let v = upd(self.get(), rec.tag);
         self.set(v);
@@ -446,6 +466,68 @@ pub fn check_case<S: Case>(spec: &WorldSpec, pools: &[rayon::ThreadPool], only_b
     (stats, out)
 }
 
+/// C17, schedule part: a panic injected into the k-th view touched by any system body of a
+/// `run_schedule` call must reach the caller (no abort, no hang, not swallowed) and the world must
+/// stay usable enough to be queried and dropped. Components here are plain integers, so double
+/// drops cannot occur; this part is about propagation through the fork/join machinery.
+pub fn check_panics<S: Case>(spec: &WorldSpec, pools: &[rayon::ThreadPool]) -> (u64, u64, Vec<Violation>) {
+    use std::panic::{catch_unwind, AssertUnwindSafe};
+    let meta = S::meta();
+    let n = meta.tasks.len();
+    let mut injections = 0u64;
+    let mut fired = 0u64;
+    let mut out = Vec::new();
+    let all = if n >= 32 { u32::MAX } else { (1u32 << n) - 1 };
+    let modes: Vec<(Option<u32>, Option<usize>)> = vec![(Some(0), None), (Some(all), None), (None, Some(1)), (None, Some(2))];
+    for (bits, pool) in modes {
+        let exec = |w: &mut W, targets: &[Id]| match (bits, pool) {
+            (Some(b), _) => S::execute(w, targets, &Exec::Driven(b)),
+            (_, Some(p)) => S::execute(w, targets, &Exec::Pool(&pools[p.min(pools.len() - 1)])),
+            _ => unreachable!(),
+        };
+        // dry run: how many ticks does the schedule make?
+        FUSE.store(-1, Ordering::SeqCst);
+        TICKS.store(0, Ordering::SeqCst);
+        let (mut w, targets) = build_world(spec);
+        let _ = exec(&mut w, &targets);
+        let ticks = TICKS.load(Ordering::SeqCst);
+        drop(w);
+        let positions: Vec<u64> = if ticks <= 16 { (0..ticks).collect() } else { (0..16).map(|i| i * ticks / 16).collect() };
+        for k in positions {
+            let (mut w, targets) = build_world(spec);
+            FIRED.store(false, Ordering::SeqCst);
+            FUSE.store(k as i64, Ordering::SeqCst);
+            let r = catch_unwind(AssertUnwindSafe(|| exec(&mut w, &targets)));
+            FUSE.store(-1, Ordering::SeqCst);
+            injections += 1;
+            if FIRED.load(Ordering::SeqCst) {
+                fired += 1;
+                match r {
+                    Ok(_) => out.push(Violation { props: &["C17"], oracle: "sched-panic-swallowed", msg: format!("{}: a panic in a system body (tick {k}) did not reach the caller of run_schedule ({})", meta.name, if bits.is_some() { "hook driver" } else { "rayon pool" }), bits }),
+                    Err(p) => {
+                        if p.downcast_ref::<SchedFuse>().is_none() {
+                            let msg = p.downcast_ref::<String>().cloned().or_else(|| p.downcast_ref::<&str>().map(|s| s.to_string())).unwrap_or_default();
+                            out.push(Violation { props: &["C17"], oracle: "sched-other-panic", msg: format!("{}: after a panic in a system body (tick {k}) a different panic reached the caller: {msg}", meta.name), bits });
+                        }
+                    }
+                }
+            }
+            // the world must still answer a query and be droppable
+            let r = catch_unwind(AssertUnwindSafe(|| {
+                let _ = world_state(&mut w);
+                drop(w);
+            }));
+            if r.is_err() {
+                out.push(Violation { props: &["C17"], oracle: "sched-world-unusable", msg: format!("{}: after a panic in a system body (tick {k}) querying or dropping the world panicked", meta.name), bits });
+            }
+            if !out.is_empty() {
+                return (injections, fired, out);
+            }
+        }
+    }
+    (injections, fired, out)
+}
+
 pub struct RunCfg {
     pub prop: String,
     pub seed: u64,
@@ -483,6 +565,35 @@ pub fn run_schedule_cases<S: Case>(cfg: &RunCfg, pools: &[rayon::ThreadPool]) ->
     let last: RefCell<Option<(String, &'static str, Option<u32>)>> = RefCell::new(None);
     let prop = cfg.prop.as_str();
     let result = runner.run(&world_strategy(), |spec| {
+        if prop == "C17" {
+            let (inj, fired, violations) = check_panics::<S>(&spec, pools);
+            if !failed.get() {
+                let mut r = report.borrow_mut();
+                r.evaluations += 1;
+                r.executions += inj;
+                *r.classes.entry("panics_injected".to_string()).or_insert(0) += inj;
+                *r.classes.entry("panics_fired_in_a_body".to_string()).or_insert(0) += fired;
+                if violations.is_empty() && fired > 0 {
+                    let mut h2 = std::collections::hash_map::DefaultHasher::new();
+                    (meta.name, serde_json::to_string(&spec).unwrap()).hash(&mut h2);
+                    let hv = h2.finish();
+                    if !r.nontrivial.contains(&hv) {
+                        r.nontrivial.push(hv);
+                        if r.samples.len() < 1 {
+                            r.samples.push(serde_json::json!({"schedule": meta.name, "tasks": meta.tasks.iter().map(|t| t.text).collect::<Vec<_>>(), "world": spec, "injections": inj}));
+                        }
+                    }
+                }
+            }
+            return match violations.into_iter().next() {
+                Some(v) => {
+                    failed.set(true);
+                    *last.borrow_mut() = Some((v.msg.clone(), v.oracle, v.bits));
+                    Err(TestCaseError::fail(v.msg))
+                }
+                None => Ok(()),
+            };
+        }
         let (stats, violations) = check_case::<S>(&spec, pools, None);
         let own = violations.into_iter().find(|v| v.props.contains(&prop));
         if !failed.get() {
@@ -518,7 +629,7 @@ pub fn run_schedule_cases<S: Case>(cfg: &RunCfg, pools: &[rayon::ThreadPool]) ->
     });
     let mut report = report.into_inner();
     if let Err(TestError::Fail(_, spec)) = result {
-        let (_, violations) = check_case::<S>(&spec, pools, None);
+        let violations = if prop == "C17" { check_panics::<S>(&spec, pools).2 } else { check_case::<S>(&spec, pools, None).1 };
         let v = violations.into_iter().find(|v| v.props.contains(&prop));
         let (msg, oracle, bits) = match v {
             Some(v) => (v.msg, v.oracle, v.bits),
@@ -535,6 +646,9 @@ pub fn make_pools() -> Vec<rayon::ThreadPool> {
 
 pub fn replay_case<S: Case>(r: &SchedReplay, pools: &[rayon::ThreadPool]) -> Option<String> {
     // a pool failure may need several attempts; a driven failure is deterministic
+    if r.property == "C17" {
+        return check_panics::<S>(&r.case, pools).2.into_iter().next().map(|v| v.msg);
+    }
     let tries = if r.bits.is_some() { 1 } else { 50 };
     for _ in 0..tries {
         let (_, violations) = check_case::<S>(&r.case, pools, Some(r.bits));
